@@ -78,19 +78,19 @@ func (b *batch) values() []error {
 // races (a completed send logged after the matching receive) are normalised, and Stop's hidden
 // deadline machinery is made explicit before the first event that presupposes it.
 type traceConv struct {
-	kinds   map[uintptr]string // harness-known kind per channel address ("bad" etc.)
-	nextID  int
-	idOf    map[uintptr]int
-	late    map[uintptr]bool // accept synthesised at actor_recv; the late "accepted" is to be skipped
-	out     []string
-	deadl   bool
-	aft     bool
-	enqSyn  int // number of synthesised "enqueued" events whose real event is still to come
-	pending bool
-	qFull   bool
-	cap     int
-	takeSyn int
-	idKind  map[int]string
+	kinds       map[uintptr]string // harness-known kind per channel address ("bad" etc.)
+	nextID      int
+	idOf        map[uintptr]int
+	late        map[uintptr]bool // accept synthesised at actor_recv; the late "accepted" is to be skipped
+	out         []string
+	deadl       bool
+	aft         bool
+	enqSyn      int // number of synthesised "enqueued" events whose real event is still to come
+	pending     bool
+	qFull       bool
+	cap         int
+	takeSyn     int
+	idKind      map[int]string
 	AcceptOrder []int
 }
 
